@@ -1,4 +1,5 @@
-import Casket.Spec.Parser
+import Casket.Proofs.Parser
+import Casket.Proofs.Lexer
 /-
 C10 — Casketfile parsing is total, terminating and structure-preserving.
 
@@ -7,7 +8,55 @@ The model (`Casket.Lexer.lex`, `Casket.Parser.parse`) is tied to casketfile/lexe
 casketfile/parse.go by the streams c10.lex / c10.parse / c10.rt.
 -/
 namespace Casket.Props.C10
-open Casket.Lexer Casket.Dispenser Casket.Parser Casket.ParserSpec
+open Casket.Lexer Casket.Dispenser Casket.Parser Casket.ParserSpec Casket.LexerSpec
+
+/-! ### the lexer (`lex` is total by construction: one structural recursion over the decoded runes): layout is insignificant -/
+
+/-- Layout is insignificant, quoting is faithful: for EVERY sequence of written tokens — unquoted words, or
+quoted strings with `\"` escapes, backslashes and line breaks inside — separated by ANY well-formed layout
+(blanks, tabs, CR LF, Unicode white space, blank lines, `#` comments), the lexer returns exactly the tokens
+that were written, each with the line it starts on.  (Runes; `C10_lex_render` is the byte-level statement.) -/
+theorem C10_lex_render_runes (items : List Item) (final : List Gap) (hwf : LexerSpec.WF items final) (line tl : Nat) :
+    lexRunes (render items final) line tl [] false false false = expected items line :=
+  lex_render_aux items final hwf line tl
+
+/-- The same for the bytes of a file (with or without a byte order mark) whose UTF-8 decoding is that text. -/
+theorem C10_lex_render (items : List Item) (final : List Gap) (hwf : LexerSpec.WF items final) (input : Bytes) :
+    (decode input = render items final ∧ (∀ c, (render items final).head? = some c → c.cp ≠ 0xFEFF) →
+      lex input = expected items 1) ∧
+    (decode input = ⟨0xFEFF, [0xEF, 0xBB, 0xBF]⟩ :: render items final → lex input = expected items 1) :=
+  ⟨fun h => lex_render_bytes items final hwf input h.1 h.2, lex_render_bytes_bom items final hwf input⟩
+
+/-- ASCII text decodes to itself, so the hypothesis of `C10_lex_render` holds for every ASCII file. -/
+theorem C10_decode_ascii (bs : List UInt8) (h : ∀ b ∈ bs, b < 0x80) :
+    decode bs = bs.map asciiChr ∧ (bs.map asciiChr).flatMap Chr.bytes = bs :=
+  ⟨decode_ascii bs h, flatMap_bytes_ascii bs⟩
+
+/-- non-vacuity (a test): `host # c⏎⇥"a \"b\"⏎c"\r x` — a word, a comment, a quoted token with escapes and a
+line break, a word ended by the end of the text -/
+example :
+    let sp : Chr := asciiChr 0x20
+    let w (s : List UInt8) : Written := .plain (s.map asciiChr)
+    let items : List Item := [
+      ⟨[], w [0x68, 0x6F, 0x73, 0x74]⟩,
+      ⟨[.ws sp, .comment [sp, asciiChr 0x63], .ws (asciiChr 0x09)],
+        .quoted [.plain (asciiChr 0x61), .plain sp, .escQuote, .plain (asciiChr 0x62), .escQuote, .plain nlChr, .plain (asciiChr 0x63)]⟩,
+      ⟨[.ws (asciiChr 0x0D), .ws sp], w [0x78]⟩]
+    LexerSpec.WF items [] ∧
+    expected items 1 = [⟨"", 1, [0x68, 0x6F, 0x73, 0x74]⟩, ⟨"", 2, [0x61, 0x20, 0x22, 0x62, 0x22, 0x0A, 0x63]⟩, ⟨"", 3, [0x78]⟩] := by
+  decide
+
+/-! ### the parser never panics -/
+
+/-- None of the slice and index expressions of parse.go (`tokens[:cursor-1]`, `tokens[cursor+1:]`,
+`tokens[cursor]`, `tkn[len(tkn)-1]`) can fail: for every input, every set of files, every environment and
+every fuel the answer is never `panic`. -/
+theorem C10_parse_no_panic (cfg : Cfg) (fuel : Nat) (fn : String) (input : Bytes) (m : String) :
+    parse cfg fuel fn input ≠ .panic m := by
+  intro h
+  have := parse_safe cfg fuel fn input
+  rw [h] at this
+  exact this
 
 /-! ### import cycles (finding F8, repaired) -/
 
